@@ -2711,6 +2711,32 @@ func (s *verifC20Scn) pickZombie() *verifC20Zombie {
 	return s.zombies[r.Intn(len(s.zombies))]
 }
 
+// genZombieNA: a newer, validly signed node_announcement of node i of the
+// zombie channel z.
+func (s *verifC20Scn) genZombieNA(r *verifRng, z *verifC20Zombie, i int) (string, lnwire.Message) {
+	pub := z.N[i]
+	baseTs := uint32(1600000000 + r.Intn(1000))
+	if st := s.snap.nodes[pub]; st != nil && st.HasAnn {
+		baseTs = uint32(st.Ts)
+	}
+	alias, _ := lnwire.NewNodeAlias("z" + hex.EncodeToString(r.Bytes(6)))
+	n := &lnwire.NodeAnnouncement1{
+		Features:  lnwire.NewRawFeatureVector(),
+		Timestamp: baseTs + 1 + uint32(r.Intn(5000)),
+		NodeID:    pub,
+		RGBColor:  color.RGBA{R: uint8(r.Intn(256)), G: uint8(r.Intn(256)), B: uint8(r.Intn(256))},
+		Alias:     alias,
+		Addresses: []net.Addr{&net.TCPAddr{IP: net.IP{10, 1, byte(r.Intn(256)), byte(1 + r.Intn(250))}, Port: 9735}},
+	}
+	verifC20SignNA(n, z.K[i])
+	s.vc.Count("z_node_announcements", 1)
+	if !s.snap.nodeHasChannel(pub) {
+		s.vc.Count("z_node_announcements_of_channelless_node", 1)
+		return "na.zombie-node.no-channel-left", n
+	}
+	return "na.zombie-node.has-other-channel", n
+}
+
 func (s *verifC20Scn) genZombieCU() (string, lnwire.Message) {
 	r := s.r
 	z := s.pickZombie()
@@ -3715,9 +3741,28 @@ func verifC20RunScenario(t *testing.T, vc *verifCtx, r *verifRng, caseIdx, steps
 		x := s.r.Intn(100)
 		switch {
 		case dead == 0 || (x < 12 && dead < 4):
+			nz := len(s.zombies)
 			if !s.zombify(&idx) && len(s.zombies) == 0 {
 				vc.Count("z_no_zombie_possible", 1)
 				j = zsteps
+			}
+			// A node of the channel that has just become a zombie
+			// announces itself with a newer, validly signed
+			// node_announcement: it is applied only if the node still
+			// has a known channel (judged by the generic node
+			// announcement oracle against the snapshot's channel list).
+			// Own PRNG stream, so the rest of the phase is unchanged.
+			if len(s.zombies) > nz {
+				z := s.zombies[len(s.zombies)-1]
+				zr := &verifRng{s: verifMix(z.Scid ^ verifHashStr("c20-zombie-na") ^ uint64(idx))}
+				for i := 0; i < 2; i++ {
+					if !zr.Chance(2, 3) {
+						continue
+					}
+					l, m := s.genZombieNA(zr, z, i)
+					s.submit(idx, l, m)
+					idx++
+				}
 			}
 			continue
 		case x < 82:
